@@ -136,7 +136,8 @@ impl Styles {
             border_id,
             apply_number_format: false,
             apply_border: false,
-            apply_alignment: false,
+            // the alignment lives in the format itself: it is the cell's own
+            apply_alignment: style.alignment.is_some(),
             apply_protection: false,
             apply_font: false,
             apply_fill: false,
